@@ -697,6 +697,29 @@ pub mod kit {
         a.build()
     }
 
+    /// Like `relay(target, Call, false, true)` but forwards exactly `gas` gas (if available).
+    pub fn relay_gas(target: Address, gas: u64) -> Vec<u8> {
+        Asm::new()
+            .op(op::CALLDATASIZE)
+            .push(0)
+            .push(0)
+            .op(op::CALLDATACOPY)
+            .push(0)
+            .push(0)
+            .op(op::CALLDATASIZE)
+            .push(0)
+            .op(op::CALLVALUE)
+            .push_addr(target)
+            .push(gas)
+            .op(op::CALL)
+            .push(1)
+            .op(op::ADD)
+            .push(5)
+            .op(op::SSTORE)
+            .op(op::STOP)
+            .build()
+    }
+
     /// slot0 = BALANCE(COINBASE)+1; slot1 = EXTCODESIZE(COINBASE)+1
     pub fn coinbase_reader() -> Vec<u8> {
         Asm::new()
@@ -753,6 +776,27 @@ pub mod kit {
             .op(op::SSTORE)
             .op(op::STOP)
             .build()
+    }
+
+    /// Two spends in one execution: CALL(calldata[0], value calldata[32]); then
+    /// CALL(calldata[64], value calldata[96]). (Several debits of one account in one transaction.)
+    pub fn spender2() -> Vec<u8> {
+        let mut a = Asm::new();
+        for base in [0u64, 64] {
+            a = a
+                .push(0)
+                .push(0)
+                .push(0)
+                .push(0)
+                .push(base + 32)
+                .op(op::CALLDATALOAD)
+                .push(base)
+                .op(op::CALLDATALOAD)
+                .op(op::GAS)
+                .op(op::CALL)
+                .op(op::POP);
+        }
+        a.push(1).push(6).op(op::SSTORE).op(op::STOP).build()
     }
 }
 
